@@ -67,6 +67,11 @@ CHECKS.append(
      "technique": "stateful property-based testing (Hypothesis-generated histories) against a reference model of the per-origin retransmission window, on the real node in simulation",
      "text": "Histories of up to 12 requests from 1..2 origin hosts on 1..2 connections, T flag 0/1, end-to-end ids from a pool of 3, answered inline or held and answered later, DWRs in between, window sizes 1..4, basic and threading applications. The model keeps per origin a bounded FIFO of the end-to-end ids of the answers seen on the wire and predicts for every request 'rejected 5012, not delivered' or 'delivered'.",
      "note": "Trusted: virtual transport and transcript; every transmitted answer (CEA, DWA, rejections) counts towards an origin's window."})
+CHECKS.append(
+    {"id": "C11", "engine": "E4-nodeworld", "category": "exploration", "design_ref": "DESIGN.md section 5 C11",
+     "technique": "model-based testing over timed histories under a virtual clock: Hypothesis-generated and systematically enumerated timings against a reference watchdog model (safety windows + bounded promptness)",
+     "text": "Timed histories (advance, traffic, DWR, DWA; up to 40 events, horizons past 10x the largest timeout) on inbound and outbound ready connections over idle/dwa timeouts 1..60 s at node and peer level (incl. unset) and wakeup 1..10 s, plus a systematic grid of (idle, dwa, wakeup) in 1..3 x every DWA delay. The model checks: no DWR while int(now)-int(last bytes) <= idle, a DWR by +wakeup+1, exactly one DWR per episode, WAITING_DWA/READY marking, DWA restores ready, close with DWA_TIMEOUT inside its window, DWR answered 2001 with the node's Origin-State-Id in both sub-states.",
+     "note": "Trusted: virtual clock and sockets; integer-second steps; bytes arriving after a timer has already expired may find the action taken (both orders accepted)."})
 
 _TODO = "check not built yet in this session (planned, see DESIGN.md); not claimed until its machinery is committed"
 NOT_APPLICABLE = [{"property_id": f"C{n:02d}", "reason": _TODO} for n in range(2, 21) if f"C{n:02d}" not in {c["id"] for c in CHECKS}]
